@@ -258,6 +258,47 @@ def check_singleton(case):
     return out
 
 
+# -- histories: translation must not carry state from one call to the next ---------------------------------
+
+HSPECS = [("dict", (("a",),), "none", "none"), ("dict", (("a", "b"),), "none", "none"), ("slots", (("a",),), "none", "none"),
+          ("slots", (("a", "c"),), "none", "none")]
+
+
+def history_cases(tier):
+    # events: (spec index, local?) ; every sequence of 3 (thorough 4) dump/load round trips on shared and per-class configs
+    evs = [(i, local) for i in range(len(HSPECS)) for local in (False, True)]
+    L = 4 if tier == "thorough" else 3
+    for seq in itertools.product(range(len(evs)), repeat=L):
+        if tier == "quick" and len(set(seq)) == 1:
+            continue
+        yield (seq,)
+
+
+def check_history(case):
+    (seq,) = case
+    evs = [(i, local) for i in range(len(HSPECS)) for local in (False, True)]
+    out = Out(cls="history")
+    shared = Config(version=2.0)
+    for step, e in enumerate(seq):
+        si, local = evs[e]
+        spec = HSPECS[si]
+        o, cls, fields = make_instance(spec, default_assignment(nfields(spec), shift=step), local)
+        # all local classes of this leg are called 'L0': each event registers its own class under that name
+        cfg = shared if not local else Config(version=2.0)
+        if local:
+            cfg.classes.add(cls)
+        try:
+            back = transport([o, {"k": o}], "dump-load" if step % 2 else "dumps-loads", cfg)
+            o2, o3 = back[0], back[1]["k"]
+        except Exception as ex:
+            return out.bad("C07/history/raises-%s" % type(ex).__name__, "history %r step %d raised %r" % (case, step, ex))
+        for got in (o2, o3):
+            why = equal_objects(o, got, fields, "none")
+            if why:
+                return out.bad("C07/history/object-depends-on-earlier-translation", "history %r step %d: %s" % (case, step, why))
+    return out
+
+
 def leg(name, gen_cases, fn=run_case):
     def run(part, tier, shard, nshards):
         drive(part, name, gen_cases(tier), shard, nshards, fn)
@@ -269,6 +310,7 @@ LEGS = {
     "values": leg("values", value_cases),
     "serialize": leg("serialize", ser_cases),
     "singletons": leg("singletons", singleton_cases, check_singleton),
+    "histories": leg("histories", history_cases, check_history),
 }
 
 META = {
@@ -278,7 +320,8 @@ META = {
     "0-2 fields per level drawn from {public, protected, name-mangled}, through dump/load (top) and dumps/loads (in a list); values: 10 representative "
     "hierarchies x each field over 10 values (all pairs for 2-field classes) x 7 contexts x 6 paths (dump/load, dumps/loads, RPC parameter and result under "
     "1.0 and 2.0) x module-qualified / locally registered; serialize: serialisation-method classes (list args, dict args, custom method name) x 8 "
-    "attribute values x contexts x paths; singletons: 5 enum members and 7 Decimals x contexts x paths; every case is non-trivial",
+    "attribute values x contexts x paths; singletons: 5 enum members and 7 Decimals x contexts x paths; histories: every sequence of 3 (thorough 4) round trips "
+    "over 4 classes x module/local naming (all local classes share one bare name in different class tables); every case is non-trivial",
     "bounds": {"quick": {"depth": 2, "fields_per_level": 2}, "thorough": {"depth": 3, "fields_per_level": 2}},
     "assumptions": [
         "generated classes accept a no-argument constructor (the translator's documented requirement)",
@@ -292,4 +335,6 @@ def replay(case):
     c = eval(case["case"], {"__builtins__": {}, "set": set, "frozenset": frozenset}, {})
     if case["leg"] == "singletons":
         return check_singleton(c).viols
+    if case["leg"] == "histories":
+        return check_history(c).viols
     return run_case(c).viols
